@@ -137,7 +137,7 @@ fn boost(prop: Prop, op: OpKind) -> u32 {
         (Prop::C03, SetDeriv) => 8,
         (Prop::C03, SetDerivUnchecked) => 4,
         (Prop::C03, ClassInfo) => 6,
-        (Prop::C05, IsEmpty | GetString) => 6,
+        (Prop::C05, IsEmpty | GetString) => 16,
         (Prop::C07, Reissue) => 5,
         (Prop::C07, EqCheck | ComplTwice) => 4,
         (Prop::C07, CharDeriv | StrDeriv | Compile | IsEmpty) => 2,
@@ -345,7 +345,7 @@ impl<'a> Gen<'a> {
     fn idiom(&mut self, c: usize) {
         use OpKind::*;
         let cl = c as u8;
-        match self.rng.below(10) {
+        match self.rng.below(12) {
             0 => {
                 // intersection of two disjoint atoms, then a loop over the (semantically) empty body
                 let a = self.single_code();
@@ -524,6 +524,45 @@ impl<'a> Gen<'a> {
                     self.push(Step::new(cl, Concat).a(x, y, 0));
                 }
             }
+            10 | 11 => {
+                // a character class with many pieces: union of 3-6 chars / ranges (many derivative
+                // classes, holes of width one between them), then used under a loop / concatenation
+                let n = 3 + self.rng.below(4);
+                let mut parts: Vec<u32> = Vec::new();
+                for _ in 0..n {
+                    if self.rng.chance(1, 2) {
+                        let a = self.single_code();
+                        self.push(Step::new(cl, Char).a(a, 0, 0));
+                    } else {
+                        let a = self.rng.below(self.ncells as u64) as u32;
+                        let b = if self.rng.chance(2, 3) { a } else { a + 1 };
+                        self.push(Step::new(cl, Range).a(a, b, 0));
+                    }
+                    parts.push(self.last(c));
+                }
+                if self.rng.chance(1, 3) {
+                    // alternatives with different continuations
+                    let mut alts: Vec<u32> = Vec::new();
+                    for &p in &parts {
+                        let t = self.h(c);
+                        self.push(Step::new(cl, Concat).a(p, t, 0));
+                        alts.push(self.last(c));
+                    }
+                    self.push(Step::new(cl, UnionList).l(alts));
+                } else {
+                    self.push(Step::new(cl, UnionList).l(parts));
+                    let u = self.last(c);
+                    match self.rng.below(4) {
+                        0 => self.push(Step::new(cl, Star).a(u, 0, 0)),
+                        1 => self.push(Step::new(cl, Plus).a(u, 0, 0)),
+                        2 => {
+                            let t = self.h(c);
+                            self.push(Step::new(cl, Concat).a(u, t, 0));
+                        }
+                        _ => {}
+                    }
+                }
+            }
             _ => {
                 // complement sandwich: ~(a . ~b)
                 let a = self.h(c);
@@ -540,7 +579,7 @@ impl<'a> Gen<'a> {
 
 pub fn gen_alphabet(rng: &mut Rng) -> Vec<u32> {
     let mut bounds: Vec<u32> = Vec::new();
-    let ns = 2 + rng.below(3);
+    let ns = 2 + rng.below(3) + if rng.chance(1, 3) { rng.below(3) } else { 0 };
     let adjacent = rng.chance(1, 2);
     let mut chosen = 0;
     if adjacent {
